@@ -305,3 +305,67 @@ def tsan_vanity(specs, run_dir, interposer, jobs=4):
     bad_exit = [(s, o) for s, o in res if o.get("exit") not in (0,)]
     return ({"tool": "ThreadSanitizer (nightly, -Zbuild-std, scratch copy with patched ethnum), hdwallet CLI", "executions": len(specs),
              "reports": len(reports), "non_zero_exits": len(bad_exit), "build_s": round(secs, 1), "wall_s": round(time.time() - t0, 1)}, viol)
+
+
+# ----------------------------------------------------------------------------- libFuzzer + ASan (coverage-guided workload)
+FUZZ_OPS = {0: ("mnemonic.parse", "phrase"), 1: ("path.parse", "text"), 2: ("sig.parse", "text"), 3: ("tx.process", "json"), 4: ("tx.process", "json"),
+            5: ("typeddata.hash", "json"), 6: ("typeddata.hash", "json"), 7: ("key.new", "bytes")}
+
+
+def build_fuzzer():
+    key = _key()
+    ws = os.path.join(BUILD, "fuzz-" + key)
+    target = os.path.join(BUILD, "target-fuzz-" + key)
+    with build._Lock("fuzz-" + key):
+        os.makedirs(os.path.join(ws, "fuzz_targets"), exist_ok=True)
+        with open(os.path.join(build.VERIF, "fuzz", "Cargo.toml")) as f:
+            man = f.read().replace("@VERIF@", build.VERIF).replace('path = "/repo"', 'path = "%s"' % build.repo_path())
+        with open(os.path.join(ws, "Cargo.toml"), "w") as f:
+            f.write(man)
+        shutil.copy(os.path.join(build.VERIF, "fuzz", "fuzz_targets", "parsers.rs"), os.path.join(ws, "fuzz_targets", "parsers.rs"))
+        if not os.path.exists(os.path.join(ws, "Cargo.lock")):
+            shutil.copy(os.path.join(build.repo_path(), "Cargo.lock"), os.path.join(ws, "Cargo.lock"))
+        secs = build._run(["cargo", "+nightly", "fuzz", "build", "--fuzz-dir", ".", "--target-dir", target, "parsers"], ws, build._env(),
+                          "libFuzzer target build", timeout=3000)
+    return os.path.join(target, TARGET, "release", "parsers"), secs
+
+
+def fuzz_parsers(seed_inputs, run_dir, seconds, forks=16):
+    """seed_inputs: list of (selector byte, bytes). Returns (summary, violations)."""
+    t0 = time.time()
+    path, secs = build_fuzzer()
+    corpus = os.path.join(run_dir, "fuzz-corpus")
+    arts = os.path.join(run_dir, "fuzz-artifacts")
+    os.makedirs(corpus, exist_ok=True)
+    os.makedirs(arts, exist_ok=True)
+    for i, (sel, b) in enumerate(seed_inputs):
+        with open(os.path.join(corpus, "s%05d" % i), "wb") as f:
+            f.write(bytes([sel]) + b)
+    env = {"PATH": os.environ.get("PATH", "/usr/bin:/bin"), "RUST_BACKTRACE": "0", "HOME": run_dir,
+           "ASAN_OPTIONS": "detect_leaks=0:allocator_may_return_null=1"}
+    p = subprocess.run([path, corpus, "-max_total_time=%d" % seconds, "-timeout=10", "-rss_limit_mb=3000", "-malloc_limit_mb=2000",
+                        "-fork=%d" % forks, "-ignore_crashes=1", "-ignore_timeouts=1", "-ignore_ooms=1", "-artifact_prefix=%s/" % arts, "-max_len=16384"],
+                       cwd=run_dir, env=env, stdout=subprocess.PIPE, stderr=subprocess.STDOUT, timeout=seconds + 600)
+    out = p.stdout.decode(errors="replace")
+    stats = re.findall(r"#(\d+): cov: (\d+) ft: (\d+) corp: (\d+) exec/s: (\d+) oom/timeout/crash: (\d+)/(\d+)/(\d+)", out)
+    last = [int(x) for x in stats[-1]] if stats else [0] * 8
+    viol = []
+    seen = set()
+    for name in sorted(os.listdir(arts)):
+        with open(os.path.join(arts, name), "rb") as f:
+            data = f.read()
+        kind = name.split("-")[0]
+        sel = data[0] % 8 if data else 0
+        op, field = FUZZ_OPS[sel]
+        body = data[1:]
+        req = {"op": op, field: body.hex() if field == "bytes" else body.decode("utf-8", "replace")}
+        if op == "tx.process" and sel == 4:
+            req["secret"] = "01" * 32
+        sig = "C17/fuzz:%s/%s" % (op, kind)
+        if sig in seen:
+            continue
+        seen.add(sig)
+        viol.append({"sig": sig, "msg": "libFuzzer %s artifact for %s (%d bytes): %r" % (kind, op, len(body), body[:80]),
+                     "case": {"j": "lib", "profile": "dev", "steps": [{"lib": req}], "x": {"cls": op}}, "obs": [{"artifact": name, "hex": data[:4000].hex()}]})
+    return ({"tool": "libFuzzer + AddressSanitizer (nightly, cargo-fuzz), parsers target", "executions": last[0], "coverage_edges": last[1], "features": last[2],
+             "corpus": last[3], "oom_timeout_crash": last[5:8], "seconds": seconds, "build_s": round(secs, 1), "wall_s": round(time.time() - t0, 1)}, viol)
